@@ -126,13 +126,17 @@ def classOf (data : Bytes) : Option Bytes :=
   | 91 :: 34 :: r => if r.contains 34 then some (r.takeWhile (· != 34)) else none
   | _ => none
 
-/-- is this emitted line a reply (not a help text line, not an event)? -/
-def isReplyAction (T : Tables) (a : Bytes) : Bool :=
-  !(a == T.helpLineAction || a == T.eventReply || a == T.logEvent)
-
 /-- the fields of an emitted line: the line without its terminator, cut at the first two blanks
 (no stripping: white space that ends an echoed field is part of the echo) -/
 def outParts (o : Bytes) : Parts := parts o.dropLast
+
+/-- may this emitted line be something else than a reply: a help text line, an event (`update`,
+`log`), or an error event (`error_update`, sent for a parameter in error state)? -/
+def isAsyncAction (T : Tables) (a : Bytes) : Bool :=
+  a == T.helpLineAction || a == T.eventReply || a == T.logEvent || a == T.errorPrefix ++ T.eventReply
+
+/-- is this action certainly a reply action? -/
+def isReplyAction (T : Tables) (a : Bytes) : Bool := !isAsyncAction T a
 
 def fitsLineB (T : Tables) (reqLine outLine : Bytes) : Bool :=
   let req := reqOf T reqLine
@@ -142,11 +146,17 @@ def fitsLineB (T : Tables) (reqLine outLine : Bytes) : Bool :=
       | some c => fitsErrB T req p.action p.spec c
       | none => false)
 
-/-- first index at which two lists, compared pairwise, fail `f` -/
-def firstBad {α β : Type} (f : α → β → Bool) : Nat → List α → List β → Option Nat
-  | _, [], _ => none
-  | _, _, [] => none
-  | i, a :: as, b :: bs => if f a b then firstBad f (i + 1) as bs else some i
+/-- walk through the emitted lines with the request lines still to be answered: the first line
+that fits the oldest unanswered request is its reply; other lines must be help text or events.
+`some (k, true)`: line found that is neither; `some (k, false)`: requests `k…` unanswered at the end. -/
+def scan (T : Tables) : Nat → List Bytes → List Bytes → Option (Nat × Bool)
+  | _, [], [] => none
+  | k, [], o :: os => if isAsyncAction T (outParts o).action then scan T k [] os else some (k, true)
+  | k, _ :: _, [] => some (k, false)
+  | k, r :: rs, o :: os =>
+    if fitsLineB T r o then scan T (k + 1) rs os
+    else if isAsyncAction T (outParts o).action then scan T k (r :: rs) os
+    else some (k, true)
 
 inductive Verdict where
   | ok
@@ -168,11 +178,10 @@ def judge (T : Tables) (stream : Bytes) (outs : List Bytes) : Verdict :=
   | some i => .split i
   | none =>
     let reqs := (splitLines stream).lines
-    let reps := outs.filter (fun o => isReplyAction T (outParts o).action)
-    if reqs.length ≠ reps.length then .count reqs.length reps.length
-    else match firstBad (fitsLineB T) 0 reqs reps with
-      | some k => .misfit k
-      | none => .ok
+    match scan T 0 reqs outs with
+    | none => .ok
+    | some (k, true) => if k < reqs.length then .misfit k else .count reqs.length (k + 1)
+    | some (k, false) => .count reqs.length k
 
 /-- `judge`, then the two implementation-side tests: per emitted line (valid UTF-8, data part strict JSON) -/
 def judgeAll (T : Tables) (stream : Bytes) (outs : List Bytes) (flags : List (Bool × Bool)) : Verdict :=
